@@ -23,6 +23,8 @@ pub enum Backend {
     Cursor { cap: usize },
     /// simulator store (fault plan armed by `Fault` ops)
     Store,
+    /// `Reverse<Cursor<_, Vec<_>>>`: the stack grows towards the front of a buffer of this capacity
+    RevCursor { cap: usize },
 }
 
 #[derive(Clone, Debug, Serialize, Deserialize, PartialEq)]
@@ -90,6 +92,12 @@ pub struct AnsTrace {
     pub init: Init,
     pub models: Vec<ModelSpec>,
     pub ops: Vec<AnsOp>,
+    /// published vector: the final export must equal these words (C06)
+    #[serde(default)]
+    pub expect: Option<Vec<u64>>,
+    /// published vector: the decoded symbols must equal these (C06)
+    #[serde(default)]
+    pub expect_decoded: Option<Vec<i64>>,
 }
 
 // ---------------------------------------------------------------------------------------
@@ -99,6 +107,7 @@ enum Coder<C: Ws> {
     Sm(AnsCoder<C::W, C::S, SmallVec<[C::W; 4]>>),
     Cur(AnsCoder<C::W, C::S, Cursor<C::W, Vec<C::W>>>),
     St(AnsCoder<C::W, C::S, Store<C::W>>),
+    Rev(AnsCoder<C::W, C::S, constriction::backends::Reverse<Cursor<C::W, Vec<C::W>>>>),
 }
 
 macro_rules! on_coder {
@@ -108,8 +117,18 @@ macro_rules! on_coder {
             Coder::Sm($x) => $e,
             Coder::Cur($x) => $e,
             Coder::St($x) => $e,
+            Coder::Rev($x) => $e,
         }
     };
+}
+
+fn rev_cursor<W: Clone + Default>(words_top_last: &[W], cap: usize) -> constriction::backends::Reverse<Cursor<W, Vec<W>>> {
+    // the top of the stack sits at the lowest used index; free space is in front of it
+    let len = words_top_last.len();
+    let cap = cap.max(len);
+    let mut buf = vec![W::default(); cap - len];
+    buf.extend(words_top_last.iter().rev().cloned());
+    constriction::backends::Reverse(Cursor::new_at_pos(buf, cap - len).expect("in range"))
 }
 
 impl<C: Ws> Coder<C> {
@@ -119,6 +138,11 @@ impl<C: Ws> Coder<C> {
             Coder::Sm(c) => Coder::Sm(c.clone()),
             Coder::Cur(c) => Coder::Cur(c.clone()),
             Coder::St(c) => Coder::St(c.clone()),
+            Coder::Rev(c) => {
+                // Reverse<_> is not Clone: rebuild through the public raw parts
+                let b = &c.bulk().0;
+                Coder::Rev(AnsCoder::from_raw_parts(constriction::backends::Reverse(b.clone()), c.state()))
+            }
         }
     }
     fn state(&self) -> u128 {
@@ -133,6 +157,10 @@ impl<C: Ws> Coder<C> {
                 b.buf()[..b.pos()].iter().map(|&w| w_to(w)).collect()
             }
             Coder::St(c) => c.bulk().data.iter().map(|&w| w_to(w)).collect(),
+            Coder::Rev(c) => {
+                let b = &c.bulk().0;
+                b.buf()[b.pos()..].iter().rev().map(|&w| w_to(w)).collect()
+            }
         }
     }
     /// `clone().into_compressed()` (None if a bounded backend has no room for the head)
@@ -144,6 +172,13 @@ impl<C: Ws> Coder<C> {
                 let (buf, pos) = b.into_buf_and_pos();
                 buf[..pos].iter().map(|&w| w_to(w)).collect()
             }),
+            Coder::Rev(_) => match self.clone_() {
+                Coder::Rev(c) => c.into_compressed().ok().map(|b| {
+                    let (buf, pos) = b.0.into_buf_and_pos();
+                    buf[pos..].iter().rev().map(|&w| w_to(w)).collect()
+                }),
+                _ => unreachable!(),
+            },
             Coder::St(c) => {
                 let mut c = c.clone();
                 // exporting must not be disturbed by an armed fault plan: that is a harness
@@ -168,6 +203,7 @@ impl<C: Ws> Coder<C> {
                 Coder::Cur(AnsCoder::from_compressed(Cursor::new_at_pos(buf, len).ok()?).ok()?)
             }
             Backend::Store => Coder::St(AnsCoder::from_compressed(Store::new(ws)).ok()?),
+            Backend::RevCursor { cap } => Coder::Rev(AnsCoder::from_compressed(rev_cursor(&ws, *cap)).ok()?),
         })
     }
     fn from_binary(kind: &Backend, words: &[u64]) -> Option<Self> {
@@ -182,6 +218,7 @@ impl<C: Ws> Coder<C> {
                 Coder::Cur(AnsCoder::from_binary(Cursor::new_at_pos(buf, len).ok()?).unwrap_infallible())
             }
             Backend::Store => Coder::St(AnsCoder::from_binary(Store::new(ws)).ok()?),
+            Backend::RevCursor { cap } => Coder::Rev(AnsCoder::from_binary(rev_cursor(&ws, *cap)).unwrap_infallible()),
         })
     }
     fn enc(&mut self, m: &Built, sym: i64) -> EncRes {
@@ -212,6 +249,9 @@ impl<C: Ws> Coder<C> {
     }
     fn num_valid_bits(&self) -> usize {
         on_coder!(self, c => c.num_valid_bits())
+    }
+    fn maybe_exhausted(&self) -> bool {
+        on_coder!(self, c => constriction::stream::Decode::<8>::maybe_exhausted(c))
     }
     fn pos(&self) -> (usize, u128) {
         let (p, s) = on_coder!(self, c => c.pos());
@@ -263,8 +303,11 @@ struct World<'t, C: Ws> {
     eps_bits: f64,
     n_enc: usize,
     reached_full: bool,
+    n_popped: usize,
     // C04 bookkeeping: original binary words while the history is decode^k encode^k
     skip_inspect: bool,
+    /// true once a decode consumed data in a way the LIFO bookkeeping cannot follow
+    garbled: bool,
 }
 
 macro_rules! viol {
@@ -330,7 +373,9 @@ fn exec_cfg<C: Ws>(t: &AnsTrace, ctx: &mut Ctx, skip_inspect: bool) -> Result<Ru
         eps_bits: 0.0,
         n_enc: 0,
         reached_full: false,
+        n_popped: 0,
         skip_inspect,
+        garbled: false,
     };
     w.after_op(ctx)?;
     if let Init::Binary(ws) = &t.init {
@@ -359,6 +404,7 @@ impl<'t, C: Ws> World<'t, C> {
     }
 
     fn bump_epoch(&mut self) {
+        self.garbled = true;
         self.epoch += 1;
         self.stack.clear();
     }
@@ -416,6 +462,25 @@ impl<'t, C: Ws> World<'t, C> {
                         viol!(ctx, "C18", "ans-num-valid-bits", "num_valid_bits()={} expected {}", nvb, expect);
                     }
                 }
+            }
+        }
+        if ctx.on("C18") && !self.garbled && self.stack.is_empty() && matches!(ctx.op.checked_sub(0).and_then(|i| self.t.ops.get(i)), Some(AnsOp::Dec { .. }) | Some(AnsOp::DecBatch { .. })) && self.n_popped > 0 {
+            // the decoder has consumed precisely the encoded symbols
+            let me = self.coder.maybe_exhausted();
+            match &self.t.init {
+                Init::Empty => {
+                    ctx.stats.hit("exhaustion-checked");
+                    if !me {
+                        viol!(ctx, "C18", "ans-decoder-not-exhausted-after-last-symbol", "maybe_exhausted()=false after popping every encoded symbol off an initially empty coder");
+                    }
+                }
+                Init::Compressed(w) | Init::Binary(w) if !w.is_empty() => {
+                    ctx.stats.hit("non-exhaustion-checked");
+                    if me {
+                        viol!(ctx, "C18", "ans-decoder-exhausted-with-words-left", "maybe_exhausted()=true although the {} initial words are still on the coder", w.len());
+                    }
+                }
+                _ => {}
             }
         }
         if ctx.on("C12") {
@@ -634,6 +699,7 @@ impl<'t, C: Ws> World<'t, C> {
                 match self.stack.last().cloned() {
                     Some(top) if top.m == mi => {
                         ctx.stats.hit("lifo-pops-checked");
+                        self.n_popped += 1;
                         if ctx.on("C01") && top.sym != sym {
                             viol!(ctx, "C01", "lifo-symbol-mismatch", "decoded {} but most recent un-popped encode was {} (model {})", sym, top.sym, mi);
                         }
@@ -931,6 +997,7 @@ impl<'t, C: Ws> World<'t, C> {
                     Coder::Sm(c) => Some(c.get_compressed().unwrap_infallible().iter().map(|&w| w_to(w)).collect()),
                     Coder::Cur(c) => c.get_compressed().ok().map(|g| { let b: &Cursor<C::W, Vec<C::W>> = &g; b.buf()[..b.pos()].iter().map(|&w| w_to(w)).collect() }),
                     Coder::St(_) => None,
+                    Coder::Rev(c) => c.get_compressed().ok().map(|g| { let b: &constriction::backends::Reverse<Cursor<C::W, Vec<C::W>>> = &g; b.0.buf()[b.0.pos()..].iter().rev().map(|&w| w_to(w)).collect() }),
                 };
                 if let Some(shown) = shown {
                     if c8 && shown != words {
@@ -1105,6 +1172,23 @@ impl<'t, C: Ws> World<'t, C> {
                 viol!(ctx, ctx.prop, "ans-export-differs-from-reference", "export={:x?} reference={:x?}", tail(words), tail(&self.r.words()));
             }
         }
+        if ctx.on("C06") {
+            if let (Some(e), Some(w)) = (&self.t.expect, &words) {
+                ctx.stats.hit("published-vectors-checked");
+                if e != w {
+                    viol!(ctx, "C06", "published-vector-mismatch", "the project's documentation prints {:x?} for this message, the coder produced {:x?}", e, w);
+                }
+                if self.r_valid && self.r.words() != *e {
+                    viol!(ctx, "HARNESS", "reference-disagrees-with-published-vector", "reference {:x?} published {:x?}", self.r.words(), e);
+                }
+            }
+            if let Some(e) = &self.t.expect_decoded {
+                ctx.stats.hit("published-vectors-checked");
+                if *e != self.log.decoded {
+                    viol!(ctx, "C06", "published-vector-decode-mismatch", "documentation: {:?}, decoded: {:?}", e, self.log.decoded);
+                }
+            }
+        }
         self.log.final_words = words;
         // C04: if the whole history was "load binary, decode k, encode the same k back in
         // reverse", the raw binary export must be the original data.  Recognised structurally.
@@ -1208,7 +1292,7 @@ impl GenParams {
             p_other_model_decode: 30,
             init_binary: 10,
             init_compressed: 15,
-            backends: vec![Backend::Vec, Backend::Vec, Backend::Small, Backend::Cursor { cap: 4096 }, Backend::Store],
+            backends: vec![Backend::Vec, Backend::Vec, Backend::Small, Backend::Cursor { cap: 4096 }, Backend::Store, Backend::RevCursor { cap: 4096 }],
             small_words_bias: true,
         };
         // swarm: randomly disable / boost op kinds per run
@@ -1232,13 +1316,13 @@ impl GenParams {
             }
             "C08" => {
                 g.w_inspect = 60;
-                g.backends = vec![Backend::Vec, Backend::Vec, Backend::Small, Backend::Cursor { cap: 4096 }];
+                g.backends = vec![Backend::Vec, Backend::Vec, Backend::Small, Backend::Cursor { cap: 4096 }, Backend::RevCursor { cap: 4096 }];
             }
             "C09" => {
                 g.w_badsym = 25;
                 g.w_fault = 12;
                 g.w_dec = 10;
-                g.backends = vec![Backend::Store, Backend::Store, Backend::Vec, Backend::Cursor { cap: 6 }];
+                g.backends = vec![Backend::Store, Backend::Store, Backend::Vec, Backend::Cursor { cap: 6 }, Backend::RevCursor { cap: 5 }];
             }
             "C12" => {
                 g.w_dec = 0;
@@ -1371,7 +1455,7 @@ pub fn generate(seed: u64, prop: &str, thorough: bool) -> AnsTrace {
     if prop == "C12" && bias.chance(1, 2) {
         let n = if thorough && bias.chance(1, 10) { 20_000 } else { n_ops.max(200).min(2000) };
         let ops = crate::for_cfg!(cfg, |C| greedy_c12_ops::<C>(&mut rng, &built, n));
-        return AnsTrace { cfg, backend, init, models, ops };
+        return AnsTrace { cfg, backend, init, models, ops, expect: None, expect_decoded: None };
     }
     if prop == "C04" {
         // bits-back shape: decode k, (reload / inspect sprinkled in), encode back in reverse
@@ -1387,7 +1471,7 @@ pub fn generate(seed: u64, prop: &str, thorough: bool) -> AnsTrace {
             }
         }
         // the encode half needs the decoded symbols: resolved by executing the decode half
-        let t0 = AnsTrace { cfg, backend: backend.clone(), init: init.clone(), models: models.clone(), ops: ops.clone() };
+        let t0 = AnsTrace { cfg, backend: backend.clone(), init: init.clone(), models: models.clone(), ops: ops.clone(), expect: None, expect_decoded: None };
         let mut stats = Stats::default();
         let mut ctx = Ctx { prop: "none", stats: &mut stats, op: 0 };
         let decoded = match std::panic::catch_unwind(std::panic::AssertUnwindSafe(|| exec(&t0, &mut ctx, true))) {
@@ -1403,7 +1487,7 @@ pub fn generate(seed: u64, prop: &str, thorough: bool) -> AnsTrace {
             }
         }
         let _ = sb;
-        return AnsTrace { cfg, backend, init, models, ops };
+        return AnsTrace { cfg, backend, init, models, ops, expect: None, expect_decoded: None };
     }
 
     let total = g.w_enc + g.w_dec + g.w_enc_batch + g.w_dec_batch + g.w_reload + g.w_clone + g.w_inspect + g.w_snapshot + g.w_seek + g.w_badsym + g.w_fault;
@@ -1519,5 +1603,5 @@ pub fn generate(seed: u64, prop: &str, thorough: bool) -> AnsTrace {
             ops.push(AnsOp::Fault(f));
         }
     }
-    AnsTrace { cfg, backend, init, models, ops }
+    AnsTrace { cfg, backend, init, models, ops, expect: None, expect_decoded: None }
 }
